@@ -110,7 +110,8 @@ fn zlib_decompress<R: io::Read>(_data: R, _out: &mut Vec<u8>) -> io::Result<()> 
 #[cfg(feature = "zlib")]
 fn zlib_compress(data: &[u8], level: u32) -> io::Result<Cow<[u8]>> {
     use std::io::Write;
-    let compression = flate2::Compression::new(level);
+    // flate2 only accepts levels from 0 to 10 (and debug-asserts it), higher levels mean 10.
+    let compression = flate2::Compression::new(level.min(10));
     let mut encoder = flate2::write::ZlibEncoder::new(Vec::new(), compression);
     encoder.write_all(data)?;
     encoder.finish().map(Cow::Owned)
